@@ -36,8 +36,8 @@ CONSTANTS FieldSet,   \* field paths of the universe, e.g. {"f", "g.h"}
 Halves7 == {-4, -2, -1, 0, 1, 2, 4}      \* -2, -1, -1/2, 0, 1/2, 1, 2
 Halves5 == {-4, -1, 0, 1, 4}             \* -2, -1/2, 0, 1/2, 2
 Halves3 == {-1, 0, 2}                    \* -1/2, 0, 1
-Halves2 == {-1, 2}                       \* -1/2, 1
 Halves1 == {-1}
+Halves0 == {}
 BoundsVol == {-1000, -3, 0, 3, 1000}
 Bounds7 == {-5, -3, -1, 0, 1, 3, 5}
 Bounds5 == {-5, -2, 0, 1, 5}
